@@ -6,6 +6,7 @@ package rpc
 // every call carries in its body.
 
 import (
+	"sync/atomic"
 	"bytes"
 	"context"
 	"encoding/binary"
@@ -144,7 +145,7 @@ func callsGen(r *rand.Rand, params map[string]any) callsScenario {
 	if sc.Focus == "C39" {
 		ncalls = 2 + r.IntN(39)
 	}
-	handlers := []string{"echo", "echo", "echo", "rpcerr", "goerr", "panic", "gate", "gate"}
+	handlers := []string{"echo", "echo", "echo", "rpcerr", "goerr", "panic", "gate", "gate", "longpoll", "longpoll"}
 	for i := 0; i < ncalls; i++ {
 		c := callSpec{Client: r.IntN(nc), Server: r.IntN(ns), BodyLen: r.IntN(600), Handler: handlers[r.IntN(len(handlers))], StartUs: int64(r.IntN(3)) * int64(r.IntN(5000))}
 		if r.IntN(4) == 0 {
@@ -157,7 +158,7 @@ func callsGen(r *rand.Rand, params map[string]any) callsScenario {
 		switch c.Handler {
 		case "rpcerr":
 			c.ErrCode = []int32{0, -1, -5000 - int32(r.IntN(1000)), 17, tlerrorcodes.Unknown}[r.IntN(5)]
-		case "gate":
+		case "gate", "longpoll":
 			if r.IntN(5) != 0 {
 				c.GateUs = int64(1+r.IntN(20)) * int64(1+r.IntN(5000))
 			}
@@ -502,6 +503,13 @@ type callState struct {
 	sentExtraFlags uint32 // request flags as the client sent them (after the client's documented normalisation)
 	wantReqExtra []byte
 	hadDeadline bool
+	// long poll (handler "longpoll"): started by the sync handler, answered later by a finisher goroutine, by the
+	// server's empty response at 7/8 of the timeout, or never (cancelled)
+	lh             LongpollHandle
+	lpStarted      bool
+	lpCancelled    bool // the server told the canceller that the long poll is gone
+	lpFinishedOK   bool // FinishLongpoll handed out a context and the finisher answered
+	lpEmptyWritten bool // the server asked for the empty response
 }
 
 type callsRun struct {
@@ -519,6 +527,8 @@ type callsRun struct {
 	running []int // handlers executing per server
 	maxRunning []int
 	pendingCalls int
+	midPacketTimeouts atomic.Int32
+	lpStop  chan struct{} // closed when the run winds up: parked long-poll finishers go away
 	faultsFired int
 	lastProgress time.Duration
 	fairOn  bool // the schedule is fair from here on: the no-progress watchdog is meaningful
@@ -543,7 +553,7 @@ func (r *callsRun) progress() { r.lastProgress = r.sim.Now() }
 // anyFault: a close, shutdown, connection fault or dial refusal happened, or the process was starved
 // (clock advanced while goroutines were runnable) long enough to matter for the 10 s packet timeout.
 func (r *callsRun) anyFault() bool {
-	if r.faultsFired > 0 || r.sim.Starved() >= 2*time.Second {
+	if r.faultsFired > 0 || r.sim.Starved() >= 2*time.Second || r.midPacketTimeouts.Load() > 0 {
 		return true
 	}
 	// a handler held at its gate for seconds keeps a worker busy: with every worker busy the server's
@@ -652,6 +662,118 @@ func (r *callsRun) handler(si int) HandlerFunc {
 	}
 }
 
+func emptyRespBody(cs *callState) []byte {
+	b := binary.LittleEndian.AppendUint32(nil, respTag)
+	b = binary.LittleEndian.AppendUint64(b, cs.token)
+	return binary.LittleEndian.AppendUint32(b, 0xE0E0E0E0)
+}
+
+// syncHandler runs in the connection's receive loop for every request. Long-poll calls are parked here
+// (StartLongpoll) and answered later; everything else goes on to the worker pool (ErrNoHandler).
+func (r *callsRun) syncHandler(si int) HandlerFunc {
+	return func(ctx context.Context, hctx *HandlerContext) error {
+		token, ok := tokenOf(hctx.Request)
+		if !ok || binary.LittleEndian.Uint32(hctx.Request) != reqTag {
+			return ErrNoHandler // the ordinary handler reports garbled requests
+		}
+		r.mu.Lock()
+		cs := r.byToken[token]
+		if cs == nil || cs.spec.Handler != "longpoll" {
+			r.mu.Unlock()
+			return ErrNoHandler
+		}
+		if cs.spec.Server != si {
+			r.fail("C38/misrouted-request", fmt.Sprintf("call %d addressed to server %d was handled by server %d", cs.idx, cs.spec.Server, si))
+		}
+		cs.handled++
+		if cs.handled > 1 {
+			r.fail("C38/duplicate-execution", fmt.Sprintf("call %d (token %x) reached a handler %d times", cs.idx, token, cs.handled))
+		}
+		if want := callBody(cs); !bytes.Equal(hctx.Request, want) {
+			r.fail("C38/garbled-request", fmt.Sprintf("call %d: sync handler saw a body of %d bytes that differs from the %d bytes sent", cs.idx, len(hctx.Request), len(want)))
+		}
+		cs.seenExtra = hctx.RequestExtra.WriteTL1(nil)
+		cs.seenActor = hctx.ActorID()
+		cs.seenTL2 = hctx.BodyFormatTL2()
+		r.mu.Unlock()
+		lh, err := hctx.StartLongpoll(&lpCanceller{r: r, cs: cs})
+		if err != nil {
+			r.sim.Count("probe.longpoll_start_refused")
+			return err // connection or server in shutdown: the error is the answer
+		}
+		r.sim.Count("probe.longpoll_started")
+		r.mu.Lock()
+		cs.lh, cs.lpStarted = lh, true
+		r.mu.Unlock()
+		vrt.Go(fmt.Sprintf("lpfinish%d", cs.idx), func() { r.finishLongpoll(cs) })
+		return nil
+	}
+}
+
+// finishLongpoll answers a parked long poll once its gate opens (or the run is wound up).
+func (r *callsRun) finishLongpoll(cs *callState) {
+	sel := vrt.NewSel("harness.longpoll.gate")
+	vrt.SelRecv(sel, cs.gate)
+	vrt.SelRecv(sel, r.lpStop)
+	if sel.Wait(false) == 1 {
+		return
+	}
+	r.mu.Lock()
+	cancelledBefore := cs.lpCancelled
+	emptyBefore := cs.lpEmptyWritten
+	lh := cs.lh
+	r.mu.Unlock()
+	hctx, ok := lh.FinishLongpoll()
+	if !ok {
+		r.sim.Count("probe.longpoll_finish_lost_race")
+		return
+	}
+	r.mu.Lock()
+	if cancelledBefore {
+		r.fail("C38/longpoll-answered-after-cancel", fmt.Sprintf("call %d: FinishLongpoll handed out a context although the server had already reported this long poll cancelled", cs.idx))
+	}
+	if emptyBefore || cs.lpEmptyWritten {
+		r.fail("C38/longpoll-answered-twice", fmt.Sprintf("call %d: FinishLongpoll handed out a context although the server had already taken the empty-response route", cs.idx))
+	}
+	cs.lpFinishedOK = true
+	r.mu.Unlock()
+	hctx.ResponseExtra = mkRespExtra(cs.spec.RespExtra)
+	hctx.Response = binary.LittleEndian.AppendUint32(hctx.Response, respTag)
+	hctx.Response = binary.LittleEndian.AppendUint64(hctx.Response, cs.token)
+	hctx.Response = binary.LittleEndian.AppendUint32(hctx.Response, uint32(cs.spec.Server))
+	hctx.Response = append(hctx.Response, callBody(cs)[12:]...)
+	hctx.SendLongpollResponse(nil)
+	r.sim.Count("probe.longpoll_finished_by_handler")
+}
+
+type lpCanceller struct {
+	r  *callsRun
+	cs *callState
+}
+
+func (c *lpCanceller) CancelLongpoll(lh LongpollHandle) {
+	c.r.mu.Lock()
+	defer c.r.mu.Unlock()
+	if c.cs.lpFinishedOK {
+		c.r.fail("C38/longpoll-cancelled-after-answer", fmt.Sprintf("call %d: the server cancelled a long poll that FinishLongpoll had already handed out", c.cs.idx))
+	}
+	c.cs.lpCancelled = true
+	c.r.sim.Count("probe.longpoll_cancelled_by_server")
+}
+
+func (c *lpCanceller) WriteEmptyResponse(lh LongpollHandle, hctx *HandlerContext) error {
+	c.r.mu.Lock()
+	if c.cs.lpFinishedOK {
+		c.r.fail("C38/longpoll-answered-twice", fmt.Sprintf("call %d: the server asked for the empty response of a long poll that FinishLongpoll had already handed out", c.cs.idx))
+	}
+	c.cs.lpEmptyWritten = true
+	c.r.mu.Unlock()
+	hctx.ResponseExtra = mkRespExtra(c.cs.spec.RespExtra)
+	hctx.Response = append(hctx.Response, emptyRespBody(c.cs)...)
+	c.r.sim.Count("probe.longpoll_empty_response_written")
+	return nil
+}
+
 func (r *callsRun) checkReqMem(si int, where string) {
 	cur, total, ok := r.servers[si].reqMemSem.VerifPeek()
 	if !ok {
@@ -746,11 +868,29 @@ func (r *callsRun) judge(cs *callState) {
 				return
 			}
 		}
-		if !bytes.Equal(cs.body, wantRespBody(cs)) {
+		if sp.Handler == "longpoll" && bytes.Equal(cs.body, emptyRespBody(cs)) {
+			// the server's own answer at 7/8 of the timeout, written by the canceller on its request
+			if !cs.lpEmptyWritten {
+				r.fail("C38/wrong-response", fmt.Sprintf("call %d returned the empty long-poll response although the server never asked for one", cs.idx))
+				return
+			}
+			if !cs.hadDeadline && !r.anyFault() { // a connection or server in shutdown also answers its long polls with the empty response
+				r.fail("C38/unexpected-timeout", fmt.Sprintf("call %d (long poll) had no deadline or custom timeout but the server timed it out with an empty response", cs.idx))
+				return
+			}
+			r.sim.Count("probe.call_longpoll_empty_response")
+		} else if !bytes.Equal(cs.body, wantRespBody(cs)) {
 			r.fail("C38/wrong-response", fmt.Sprintf("call %d returned success with a body (%d bytes, head %x) that is not the response its handler produced (%d bytes)", cs.idx, len(cs.body), cs.body[:min(len(cs.body), 16)], len(wantRespBody(cs))))
 			return
 		}
-		if sp.Handler != "echo" && sp.Handler != "gate" {
+		if sp.Handler == "longpoll" && !cs.lpFinishedOK && !cs.lpEmptyWritten {
+			r.fail("C38/wrong-response", fmt.Sprintf("call %d (long poll) returned success although neither the finisher nor the empty-response route answered it", cs.idx))
+			return
+		}
+		if sp.Handler == "longpoll" {
+			r.sim.Count("probe.call_longpoll_success")
+		}
+		if sp.Handler != "echo" && sp.Handler != "gate" && sp.Handler != "longpoll" {
 			r.fail("C38/wrong-response", fmt.Sprintf("call %d returned success but its handler (%s) produced an error", cs.idx, sp.Handler))
 			return
 		}
@@ -792,6 +932,13 @@ func (r *callsRun) judge(cs *callState) {
 			r.sim.Count("probe.call_handler_panic_recovered")
 		case own:
 			r.fail("C38/wrong-response", fmt.Sprintf("call %d: error text carries its token but its handler (%s) does not produce such an error: %v", cs.idx, sp.Handler, rpcErr))
+		case rpcErr.Code == tlerrorcodes.GracefulShutdown && sp.Handler == "longpoll":
+			// StartLongpoll refuses to park a request on a connection or server that is shutting down; the sync
+			// handler returns that error, which is this call's own answer
+			if !r.anyFault() {
+				r.fail("C38/unexpected-error", fmt.Sprintf("call %d: long poll refused for shutdown although nothing was shut down: %v", cs.idx, rpcErr))
+			}
+			r.sim.Count("probe.call_longpoll_refused_in_shutdown")
 		case rpcErr.Code == tlerrorcodes.Timeout:
 			if !cs.hadDeadline {
 				r.fail("C38/unexpected-timeout", fmt.Sprintf("call %d had no deadline or custom timeout but got a server timeout error: %v", cs.idx, rpcErr))
@@ -1071,12 +1218,22 @@ func (r *callsRun) body(s simI) {
 		Capacity: sc.Capacity, DialRefusePct: sc.DialRefusePct}, s.Choose)
 	vrt.DialFunc = r.net.Dial
 	defer func() { vrt.DialFunc = nil }()
-	nolog := func(format string, a ...any) { s.Notef("LOG "+format, a...) }
+	nolog := func(format string, a ...any) {
+		s.Notef("LOG "+format, a...)
+		// An idle read deadline that expires while a packet is arriving (at least one byte of it read, the rest still on its
+		// way through a slow, segmented stream; an expiry with nothing read only sends a ping and logs nothing) makes the reader drop the connection: documented behaviour of
+		// the packet reader, caused by delivery timing, i.e. an environment fault of this run.
+		if msg := fmt.Sprintf(format, a...); strings.Contains(msg, "i/o timeout") && !strings.Contains(msg, "timeout after ping sent") {
+			r.midPacketTimeouts.Add(1)
+			s.Fired("read_deadline_expired_inside_a_packet")
+		}
+	}
 	r.mu.Lock()
 	r.running = make([]int, len(sc.Servers))
 	r.maxRunning = make([]int, len(sc.Servers))
 	r.srvClosed = make([]bool, len(sc.Servers))
 	r.cliClosed = make([]bool, len(sc.Clients))
+	r.lpStop = make(chan struct{}) // inside the bubble, like every channel a simulated goroutine blocks on
 	for i, sp := range sc.Calls {
 		cs := &callState{spec: sp, idx: i, token: 0xC0DE000000000000 | uint64(i)<<32 | (sc.CryptoSeed & 0xFFFFFFFF), gate: make(chan struct{})}
 		r.calls = append(r.calls, cs)
@@ -1086,7 +1243,7 @@ func (r *callsRun) body(s simI) {
 	r.mu.Unlock()
 	var servers []*Server
 	for si, sp := range sc.Servers {
-		opts := []ServerOptionsFunc{ServerWithLogf(nolog), ServerWithHandler(r.handler(si)), ServerWithMaxWorkers(sp.MaxWorkers),
+		opts := []ServerOptionsFunc{ServerWithLogf(nolog), ServerWithHandler(r.handler(si)), ServerWithSyncHandler(r.syncHandler(si)), ServerWithMaxWorkers(sp.MaxWorkers),
 			ServerWithRequestBufSize(sp.ReqBuf), ServerWithRequestMemoryLimit(sp.ReqMemLimit), ServerWithConnReadBufSize(sp.RBuf), ServerWithConnWriteBufSize(sp.WBuf),
 			ServerWithTrustedSubnetGroups([][]string{{"10.9.0.0/16"}})}
 		if sp.WithKey {
@@ -1125,7 +1282,7 @@ func (r *callsRun) body(s simI) {
 	for _, cs := range r.calls {
 		cs := cs
 		vrt.Go(fmt.Sprintf("call%d", cs.idx), func() { r.doCall(cs) })
-		if cs.spec.Handler == "gate" && cs.spec.GateUs > 0 {
+		if (cs.spec.Handler == "gate" || cs.spec.Handler == "longpoll") && cs.spec.GateUs > 0 {
 			s.After(time.Duration(cs.spec.StartUs+cs.spec.GateUs)*time.Microsecond, func() { r.openGate(cs) })
 		}
 	}
@@ -1177,7 +1334,7 @@ func (r *callsRun) body(s simI) {
 		// whatever is still gated is released now
 		r.setPhase("release gates")
 		for _, cs := range r.calls {
-			if cs.spec.Handler == "gate" {
+			if cs.spec.Handler == "gate" || cs.spec.Handler == "longpoll" {
 				r.openGate(cs)
 			}
 		}
@@ -1245,6 +1402,7 @@ func (r *callsRun) body(s simI) {
 		}
 	}
 	// closing either side makes all pending calls return; then everything must wind down
+	close(r.lpStop)
 	r.setPhase("closing clients")
 	for i := range clients {
 		r.closeClient(i)
